@@ -56,6 +56,7 @@ def loaded_as_recorded(ck, ctx):
 
 
 def run(ck, ctx):
+    C.adapter_census(ck, ctx, "codec", ("db::", "graph::"))
     loaded_as_recorded(ck, ctx)
     DB.codec(ck, ctx)
     DB.prefix_agrees(ck, ctx)
